@@ -213,7 +213,7 @@ def check_case(case):
                 p, o = fresh_or_shared("s.h5"), tmp.fresh("meta.json")
                 paths += [p, o]
                 cur.save_h5(p)
-                run_cli("extract_screen_metadata", ["--screen", p, "--output", o])
+                run_cli("extract_screen_metadata", ["--screen", p, "--output", o], verbose=step % 2 == 1)
                 meta = json.load(open(o))
                 nu = sum(1 for v in model.values() if not v)
                 require(meta["n_unobserved_plates"] == nu, "metadata.n_unobserved_plates", lambda: "metadata reports %r unobserved plates, model has %d" % (meta["n_unobserved_plates"], nu))
@@ -238,7 +238,7 @@ def check_case(case):
                         o = p if shared else tmp.fresh("adv.h5")
                         paths += [p, o]
                         cur.save_h5(p)
-                        run_cli("reveal_plate", ["--screen", p, "--output", o, "--plate-id"] + ids)
+                        run_cli("reveal_plate", ["--screen", p, "--output", o, "--plate-id"] + ids, verbose=step % 2 == 0)
                         new = Screen.load_h5(o)
                 except ValueError as e:
                     require(refuse, kind + ".unexpected_refusal", lambda: "reveal of %r refused (%s) although the selected values %r are neither all zero nor NaN" % (ids, e, vals.tolist()))
